@@ -23,12 +23,13 @@ import (
 //	//vf:override net/http.ReadRequest = vfStubReadRequest
 //	//vf:skipinit some/package/path
 type HarnessSpec struct {
-	Name     string
-	Property string
-	NoPanic  bool
-	Reach    []string
-	Steps    int
-	Known    []string // labels of known findings this harness may report (informational)
+	Name       string
+	Property   string
+	NoPanic    bool
+	Reach      []string
+	Steps      int
+	Known      []string // labels of known findings this harness may report (informational)
+	NativeSkip []string // markers whose witnesses depend on stubbed environment events and are not replayed natively
 }
 
 type HarnessFile struct {
@@ -81,6 +82,8 @@ func ParseHarnessFile(path string) (*HarnessFile, error) {
 						hs.Reach = strings.Split(f[len("reach="):], ",")
 					case strings.HasPrefix(f, "steps="):
 						fmt.Sscan(f[len("steps="):], &hs.Steps)
+					case strings.HasPrefix(f, "nativeskip="):
+						hs.NativeSkip = strings.Split(f[len("nativeskip="):], ",")
 					case strings.HasPrefix(f, "known="):
 						hs.Known = strings.Split(f[len("known="):], ",")
 					}
